@@ -32,6 +32,8 @@ type scCase struct {
 	GetFaultAt  int    `json:"getFaultAt"`
 	GetSilent   bool   `json:"getSilent"`
 	Stale       bool   `json:"stale"` // the previous version's outputs are still in place when the cache is asked
+	StaleLink   bool   `json:"staleLink"`
+	StaleStyle  string `json:"staleStyle"` // with staleLink: symlink | hardlink (the previous version's first output is a link to a file elsewhere)
 	FaultStyle  string `json:"faultStyle"` // hook | missing   (how the read fault is produced)
 	Shape       string `json:"shape"`      // flat | dir
 }
@@ -217,6 +219,15 @@ func streamCacheEngine(args []string) error {
 			if c.Shape == "dir" {
 				os.WriteFile(filepath.Join(outDir, "d", "only-in-previous-version"), []byte("stale"), 0444)
 			}
+			if c.StaleLink {
+				os.WriteFile(filepath.Join(base, "victim"), []byte("victim"), 0644)
+				os.Remove(filepath.Join(outDir, "f1"))
+				if c.StaleStyle == "hardlink" {
+					os.Link(filepath.Join(base, "victim"), filepath.Join(outDir, "f1"))
+				} else {
+					os.Symlink(filepath.Join(base, "victim"), filepath.Join(outDir, "f1"))
+				}
+			}
 		}
 		if c.GetFaultAt > 0 {
 			if c.Kind == "http" {
@@ -244,11 +255,22 @@ func streamCacheEngine(args []string) error {
 		filepath.Walk(outDir, func(p string, info os.FileInfo, err error) error {
 			if err == nil && !info.IsDir() {
 				rel, _ := filepath.Rel(outDir, p)
-				got = append(got, fmt.Sprintf("%s %d", rel, info.Size()))
+				if info.Mode()&os.ModeSymlink != 0 {
+					got = append(got, fmt.Sprintf("%s symlink", rel))
+				} else {
+					got = append(got, fmt.Sprintf("%s %d", rel, info.Size()))
+				}
 			}
 			return nil
 		})
-		emit(map[string]any{"id": c.ID, "committed": committed, "hit": hit, "restored": got, "want": want})
+		victim := ""
+		if b, err := os.ReadFile(filepath.Join(base, "victim")); err == nil {
+			victim = string(b)
+			if len(victim) > 20 {
+				victim = victim[:20]
+			}
+		}
+		emit(map[string]any{"id": c.ID, "committed": committed, "hit": hit, "restored": got, "want": want, "victim": victim})
 		return nil
 	})
 }
